@@ -119,6 +119,17 @@ func (sp *Scope) DeclareExternalValue(name string, value Element, moduleID int) 
 	return nil
 }
 
+// DeclaredInCurrentBlock - whether the name resolves to a declaration of the current block
+// (not to one of an enclosing block)
+func (sp *Scope) DeclaredInCurrentBlock(name string) bool {
+	lowest := sp.currentDepth
+	if sp.joinedDepths[sp.currentDepth] {
+		lowest = sp.currentDepth - 1
+	}
+	symbolID := sp.getSymbolID(name)
+	return symbolID >= 0 && sp.locals[symbolID].depth >= lowest
+}
+
 // getSymbolID - get the latest symbolID that matches the name
 // when not found, return -1
 func (sp *Scope) getSymbolID(name string) int {
